@@ -194,7 +194,8 @@ class Flow:
                 rec = self.rec_of(a[1], roots)
                 ft = (type_of(self.v, a, roots) or "").replace("const", "").strip()
                 if rec and ft in ("int", "int32_t", "unsigned int", "uint32_t", "long", "unsigned long"):
-                    m[a] = sym.sym("%s.%s" % (rec, a[2]))
+                    rec2, f2 = bounds.dim_field_alias(self.v).get((rec, a[2]), (rec, a[2]))
+                    m[a] = sym.sym("%s.%s" % (rec2, f2))
         return sym.rewrite(t, m) if m else t
 
     def field_extent(self, rec, field):
